@@ -12,6 +12,7 @@ import json
 import multiprocessing
 import os
 import pathlib
+import shutil
 import time
 import warnings
 
@@ -546,7 +547,6 @@ def run_transpose_batch(ctx, cases, workdir, count_key):
         for p in workdir.iterdir():
             if p.name not in ('src.h5', 'dst.h5'):
                 if p.is_dir():
-                    import shutil
                     shutil.rmtree(p, ignore_errors=True)
                 else:
                     p.unlink()
@@ -727,9 +727,15 @@ def exhaustive(ctx):
             continue
         obs = run_transpose_impl(case, work)
         observed.append((obs, take_traces()))
+        # what a case left behind is part of ITS observation (obs['left']); it must not
+        # be charged to the cases that follow (a failed parallel run can leave its
+        # scratch directory: the clean-up races against the surviving workers)
         for p in work.iterdir():
-            if p.name not in ('src.h5', 'dst.h5') and p.is_file():
-                p.unlink()
+            if p.name not in ('src.h5', 'dst.h5'):
+                if p.is_dir():
+                    shutil.rmtree(p, ignore_errors=True)
+                else:
+                    p.unlink()
     mcases = []
     for case, (obs, traces) in zip(cases, observed):
         tgb = traces[0]['max_gb'] if traces else None
@@ -971,6 +977,7 @@ def op_amalgamate(ctx, d, i):
     n_src = rng.randrange(1, 4)
     dst_sparse = rng.random() < 0.6
     packets, sources, want, srcdesc = [], [], [], []
+    csc_calls, csc_expect = [], []
     sub = d / f'am_{i}'
     sub.mkdir()
     for s in range(n_src):
@@ -994,6 +1001,11 @@ def op_amalgamate(ctx, d, i):
             sources.append([1, code_dense(M), nr, rows])
         else:
             sources.append([0, comp_of(sp.csr_matrix(M)), nc, rows])
+        if enc == 'csc':
+            # the CSC source is first converted by csc_to_csr_on_disk (max_gb=10): model 510
+            E, L, Lc = budgets(10, M.dtype, 'int32', 'int32')
+            csc_calls.append((510, [comp_of(sp.csc_matrix(M)), rows, nr, nc, E, L, Lc]))
+            csc_expect.append(code_dense(M[rows, :]))
         srcdesc.append(mdesc(M, encoding=enc, layer=layer, rows=rows))
     want = np.concatenate(want, axis=0)
     n_out = want.shape[0]
@@ -1011,6 +1023,16 @@ def op_amalgamate(ctx, d, i):
     else:
         res = ctx.model([(1306, sources)])[0]
     spec, corr = [], []
+    # CSC sources: the model of the conversion + get_batch must agree with the CSR view used
+    # above, or fail the way the implementation does (F2: no stored value -> ValueError)
+    csc_err = None
+    for r510, exp in zip(ctx.model(csc_calls) if csc_calls else [], csc_expect):
+        if r510[0] == 1:
+            csc_err = csc_err or r510[1]
+        elif r510 != [0, exp]:
+            corr.append('model of the CSC source (conversion + get_batch) differs from the selected rows')
+    if csc_err is not None:
+        res = [1, csc_err]
     desc = {'sources': srcdesc, 'dst_sparse': dst_sparse, 'compression': compression, 'model': res}
     left = sorted(p.name for p in tmp.iterdir())
     if err is None:
@@ -1042,6 +1064,9 @@ def op_amalgamate(ctx, d, i):
     klass = 'amalgamate:' + (err[0] if err else 'wrong-matrix')
     if err and err[0] == 'ValueError' and empty_piece:
         klass = 'amalgamate-sparse-piece-without-stored-value'
+    csc_zero = any(s_['encoding'] == 'csc' and not np.array(s_['M']).any() for s_ in srcdesc)
+    if err and err[0] == 'ValueError' and csc_zero and 'chunk dimensions' in err[1]:
+        klass = 'F2-amalgamate-csc-source-without-stored-value'
     ctx.count(('amalgamate', i), nontrivial=n_src >= 2 and (want != 0).sum() >= 2)
     ctx.dist('op', f'amalgamate_h5ad(sparse={dst_sparse}):' + ('ok' if err is None else 'raised'))
     report(ctx, 'amalgamate_h5ad', 'amalgamate', klass, 'corr:Sparse.amalgamate', spec, corr, desc)
